@@ -2317,6 +2317,17 @@ type UDTUnmarshaler interface {
 	UnmarshalUDT(name string, info TypeInfo, data []byte) error
 }
 
+// fieldByName is Value.FieldByName, except that a field which would be reached
+// through a nil embedded pointer does not exist instead of panicking.
+func fieldByName(v reflect.Value, name string) (f reflect.Value) {
+	defer func() {
+		if recover() != nil {
+			f = reflect.Value{}
+		}
+	}()
+	return v.FieldByName(name)
+}
+
 func marshalUDT(info TypeInfo, value interface{}) ([]byte, error) {
 	udt := info.(UDTTypeInfo)
 
@@ -2387,7 +2398,7 @@ func marshalUDT(info TypeInfo, value interface{}) ([]byte, error) {
 	for _, e := range udt.Elements {
 		f, ok := fields[e.Name]
 		if !ok {
-			f = k.FieldByName(e.Name)
+			f = fieldByName(k, e.Name)
 		}
 
 		var data []byte
@@ -2519,7 +2530,7 @@ func unmarshalUDT(info TypeInfo, data []byte, value interface{}) error {
 			for _, rest := range udt.Elements[id:] {
 				f, ok := fields[rest.Name]
 				if !ok {
-					f = k.FieldByName(rest.Name)
+					f = fieldByName(k, rest.Name)
 				}
 				if f.IsValid() && f.CanSet() {
 					f.Set(reflect.Zero(f.Type()))
@@ -2541,7 +2552,7 @@ func unmarshalUDT(info TypeInfo, data []byte, value interface{}) error {
 
 		f, ok := fields[e.Name]
 		if !ok {
-			f = k.FieldByName(e.Name)
+			f = fieldByName(k, e.Name)
 			if f == emptyValue {
 				// skip fields which exist in the UDT but not in
 				// the struct passed in
